@@ -24,7 +24,9 @@ ASSUMPTIONS = ["installed package sources/stubs under /venv describe the API tha
 ADOPT = [("C02", ["C02-f"], "a batch of one sample (batch_size = 1 or a trailing batch) makes all clusters coincide: without the zero-distance masks the MMD gradient is NaN and fit returns NaN probabilities"),
          ("C12", ["C12-a"], "a hyper-parameter that the constructor drops is silently replaced by the parent's default"),
          ("C17", ["C17-e"], "an overflowing exponential turns predict_proba rows into NaN, which are not probability vectors"),
-         ("C15", ["C15-b"], "Douglas probabilities are products of the soft bin memberships: they must be probability vectors")]
+         ("C15", ["C15-b"], "Douglas probabilities are products of the soft bin memberships: they must be probability vectors"),
+         ("C09", ["C09-b"], "Kauri.fit allocates its leaf/cluster membership matrices with max_leaves rows/columns: a growth loop that can run with n_leaves == max_leaves "
+                            "(or on an empty worklist) indexes past them and fit raises instead of returning labels and a tree")]
 
 
 def run(pm, ctx):
